@@ -55,6 +55,7 @@ type gProp struct {
 	Desc       string   // description line (printed as a leading comment)
 	Attrs      []string // extra attribute lines, e.g. rules.pattern = "..."
 	Mark       string   // "" | "?" (optional) | "!" (required)
+	Flatten    bool     // object reference with flatten = true: the client merges the referenced object's properties
 }
 
 type gSchema struct {
@@ -97,6 +98,7 @@ type gPackage struct {
 	Services []gService
 	Topics   []gTopic
 	Entity   *gEntity
+	FlatHost string // a named object with a flattened object field whose children are referenced by nothing else
 	Awkward  bool // uses property names whose JSON name is not the protobuf default of the snake name
 }
 
@@ -127,6 +129,8 @@ type gctx struct {
 	decorate bool // descriptions and validation rules with characters that need escaping (C05)
 	inline   bool // inline nested objects / oneofs / enums, optional and required marks
 }
+
+var keywordNames = []string{"option", "optional", "repeated", "message", "enum", "oneof", "string", "bool", "int32", "bytes", "stream", "map", "service"}
 
 var descPool = []string{"Plain words.", "With \"double quotes\" inside", "back\\slash and 'single'", "unicode é ü 漢字 😀", "slashes // and /* stars */", "colon: semi; brace { } [ ]",
 	"ends with backslash \\", "percent %s %d and tab-free", "a = b, c <d> &e", "x"}
@@ -307,13 +311,23 @@ func genPackageOpt(r *vh.Rand, awkward, decorate bool) *gPackage {
 	g := &gctx{r: r, awkward: awkward, decorate: decorate, inline: r.Chance(50)}
 	p := &gPackage{Pkg: vh.Pick(r, pkgNames), Awkward: awkward}
 	// declare schema names first so that references can be cyclic
+	usedKeyword := map[string]bool{}
 	n := r.Range(2, 6)
 	for i := 0; i < n; i++ {
 		kind := vh.Pick(r, []string{"object", "object", "object", "oneof", "enum"})
 		if i == 0 {
 			kind = "object"
 		}
-		g.schemas = append(g.schemas, gSchema{Name: fmt.Sprintf("%s%d", map[string]string{"object": "Obj", "oneof": "Choice", "enum": "Kind"}[kind], i), Kind: kind})
+		name := fmt.Sprintf("%s%d", map[string]string{"object": "Obj", "oneof": "Choice", "enum": "Kind"}[kind], i)
+		// now and then a schema whose name is a word of the proto grammar or a scalar type name: as a field
+		// type it must not be printed as the first word of the declaration (fix 5e02f98)
+		if i > 0 && r.Chance(6) {
+			if kw := vh.Pick(r, keywordNames); !usedKeyword[kw] {
+				usedKeyword[kw] = true
+				name = kw
+			}
+		}
+		g.schemas = append(g.schemas, gSchema{Name: name, Kind: kind})
 	}
 	for i := range g.schemas {
 		s := &g.schemas[i]
@@ -345,6 +359,37 @@ func genPackageOpt(r *vh.Rand, awkward, decorate bool) *gPackage {
 			}
 		}
 	}
+	// a named object with a FLATTENED object field; the flattened object's properties refer to an enum and an
+	// object that nothing else references (they are reachable through the flattened field only)
+	if r.Chance(35) {
+		var hosts []int
+		for i, s := range g.schemas {
+			if s.Kind == "object" && !usedKeyword[s.Name] {
+				hosts = append(hosts, i)
+			}
+		}
+		if len(hosts) > 0 {
+			h := vh.Pick(r, hosts)
+			k := len(g.schemas)
+			base := gSchema{Name: fmt.Sprintf("Base%d", k), Kind: "object", Props: []gProp{
+				{Name: "leafKind", Ty: gTy{Kind: "enum", Ref: fmt.Sprintf("LeafKind%d", k)}},
+				{Name: "leafDims", Ty: gTy{Kind: "object", Ref: fmt.Sprintf("LeafDims%d", k)}},
+				{Name: "leafNote", Ty: gTy{Kind: "string"}},
+			}}
+			if r.Chance(40) { // two levels of flatten
+				base.Props = append(base.Props, gProp{Name: "inner", Ty: gTy{Kind: "object", Ref: fmt.Sprintf("Inner%d", k)}, Flatten: true})
+				g.schemas = append(g.schemas, gSchema{Name: fmt.Sprintf("Inner%d", k), Kind: "object", Props: []gProp{
+					{Name: "innerKind", Ty: gTy{Kind: "enum", Ref: fmt.Sprintf("InnerKind%d", k)}},
+					{Name: "innerFlag", Ty: gTy{Kind: "bool"}, Filterable: true},
+				}}, gSchema{Name: fmt.Sprintf("InnerKind%d", k), Kind: "enum"})
+			}
+			g.schemas = append(g.schemas, base,
+				gSchema{Name: fmt.Sprintf("LeafKind%d", k), Kind: "enum"},
+				gSchema{Name: fmt.Sprintf("LeafDims%d", k), Kind: "object", Props: []gProp{{Name: "width", Ty: gTy{Kind: "integer", Spec: "integer:INT32"}}}})
+			g.schemas[h].Props = append(g.schemas[h].Props, gProp{Name: "flatBase", Ty: gTy{Kind: "object", Ref: base.Name}, Flatten: true})
+			p.FlatHost = g.schemas[h].Name
+		}
+	}
 	p.Schemas = g.schemas
 
 	nsvc := r.Range(1, 2)
@@ -361,6 +406,28 @@ func genPackageOpt(r *vh.Rand, awkward, decorate bool) *gPackage {
 			sv.Methods = append(sv.Methods, g.method(noun, k))
 		}
 		p.Services = append(p.Services, sv)
+	}
+	if p.FlatHost != "" {
+		// the host is reached through a reference from a response (it is not itself a request / response root)
+		done := false
+		for i := range p.Services {
+			for k := range p.Services[i].Methods {
+				m := &p.Services[i].Methods[k]
+				if !done && !m.NoResp && !m.List {
+					m.Resp = append(m.Resp, gProp{Name: "flatHostRef", Ty: gTy{Kind: "object", Ref: p.FlatHost}})
+					done = true
+				}
+			}
+		}
+		if !done {
+			m := &p.Services[0].Methods[0]
+			if m.List {
+				m.Resp = append(m.Resp, gProp{Name: "flatHostRef", Ty: gTy{Kind: "object", Ref: p.FlatHost}})
+			} else {
+				m.NoResp = false
+				m.Resp = append(m.Resp, gProp{Name: "flatHostRef", Ty: gTy{Kind: "object", Ref: p.FlatHost}})
+			}
+		}
 	}
 	if r.Chance(30) {
 		noun := vh.Pick(r, nouns)
@@ -473,6 +540,9 @@ func propLine(ind, kw string, p gProp) string {
 		body = append(body, "listRules.filtering.filterable = true")
 	}
 	body = append(body, p.Attrs...)
+	if p.Flatten {
+		body = append(body, "flatten = true")
+	}
 	mark := ""
 	if p.Mark != "" {
 		mark = p.Mark + " "
@@ -647,6 +717,28 @@ func (p *gPackage) reachable() []string {
 			return
 		}
 		visit(t.refName())
+	}
+	// the client merges a flattened object into the object that refers to it: the flattened object is not
+	// listed itself (unless something else refers to it), what its properties refer to is
+	var visitProps func(ps []gProp)
+	visitProps = func(ps []gProp) {
+		for _, pr := range ps {
+			if pr.Flatten {
+				if fs, ok := byName[pr.Ty.Ref]; ok {
+					visitProps(fs.Props)
+				}
+				continue
+			}
+			visitTy(pr.Ty)
+		}
+	}
+	visit = func(name string) {
+		s, ok := byName[name]
+		if !ok || seen[name] {
+			return
+		}
+		seen[name] = true
+		visitProps(s.Props)
 	}
 	for _, sv := range p.Services {
 		for _, m := range sv.Methods {
